@@ -10,6 +10,7 @@ import Cascette.Proofs.Encoding
 import Cascette.Proofs.ArchiveIndex
 import Cascette.Proofs.RootFile
 import Cascette.Proofs.TvfsPath
+import Cascette.Proofs.Resolver
 namespace Cascette.Props.C03
 open Cascette.Model.Paged Cascette.Model.Encoding Cascette.Proofs.Paged Cascette.Proofs.Encoding
 open Cascette.Spec.Lookup
@@ -169,21 +170,52 @@ theorem group_find_eq_linear_scan (g : List GEntry) (k : Key)
     groupFind g k = g.find? (fun e => e.key == k) :=
   Proofs.ArchiveIndex.groupFind_eq_scan g k hs
 
-/-
-NOT PROVED (kept as the full statement; covered by the correspondence run and the oracle only):
+open Cascette.Model.ArchiveIndex in
+/-- **toc_search_complete (every parsed index that passes `ArchiveIndex::validate`).** For ANY index
+structure whose records are strictly ascending, whose keys all have the index's key size and whose
+TOC passes the executable `validate_toc_consistency` check (block capacity ≥ 1), the TOC-guided
+search — binary search over the TOC of last keys with the truncated-prefix comparison, then binary
+search inside the selected block — returns for EVERY probe (present, absent, shorter or longer than
+the key size) exactly what a linear scan over all records returns, and the slice
+`entries[start..end]` is never out of range (`some`). This is the completeness half: the TOC search
+selects the one block that can hold the key. -/
+theorem toc_search_complete (c : Chunked Entry) (ks : Nat) (h0 : 0 < c.rpb)
+    (hs : c.entries.Pairwise (fun a b => klt a.key b.key = true))
+    (hlen : ∀ e ∈ c.entries, e.key.length = ks)
+    (htc : tocConsistent c.entries c.toc c.rpb = true) (k : Key) :
+    Model.ArchiveIndex.find c k = some (c.entries.find? (fun e => e.key == k)) :=
+  Proofs.ArchiveIndex.chunked_find_eq_scan Entry.key c ks hs hlen
+    (Proofs.ArchiveIndex.tocOK_of_check c.entries c.toc c.rpb h0 htc) k
 
+open Cascette.Model.ArchiveIndex in
+/-- **toc_search_eq_lookup (full statement).** For every key size `ks`, offset width `ob`, block
+capacity `rpb ≥ 1` and EVERY set of entries with distinct `ks`-byte keys whose size/offset fit their
+fields and none of which is the all-zero padding record: whenever builder → bytes → parser yields an
+index, `binary_search_key` on it returns for EVERY probe key exactly the inserted entry, and nothing
+for a key that was not inserted. -/
 theorem toc_search_eq_lookup (ks ob rpb : Nat) (input : List Entry) (hrpb : 0 < rpb)
     (hlen : ∀ e ∈ input, e.key.length = ks) (hd : Distinct Entry.key input)
     (hfit : ∀ e ∈ input, stored ob e = e) (hnz : ∀ e ∈ input, e.isZero = false)
     (c : Chunked Entry) (hb : buildParse ks ob rpb input = some c) (k : Key) :
-    find c k = some (lookup Entry.key input k)
+    Model.ArchiveIndex.find c k = some (lookup Entry.key input k) :=
+  Proofs.ArchiveIndex.buildParse_find_eq_lookup ks ob rpb input hrpb hlen hd hfit hnz c hb k
 
-What is missing is the completeness half: that the TOC binary search (prefix comparison, monotone
-along the TOC by `take`-monotonicity of the byte order) selects the one block `ci` with
-`toc[ci-1] < k ≤ toc[ci]`, and that `entries[ci*rpb .. min((ci+1)*rpb, n))` is that block. With
-`block_search_eq_linear_scan` and `toc_search_sound` above this is pure index arithmetic over
-`validate_toc_consistency`; it was not closed in the time available.
--/
+open Cascette.Model.ArchiveIndex in
+/-- non-vacuity of `toc_search_eq_lookup` / `toc_search_complete` (a test, kernel-evaluated): five
+2-byte keys in blocks of two (three blocks, the last one short) build and parse, and meet every
+hypothesis. -/
+example :
+    let input : List Entry := [⟨[0, 0], 1, 0, none⟩, ⟨[0, 255], 2, 5, none⟩, ⟨[1, 0], 3, 9, none⟩,
+      ⟨[7, 7], 4, 11, none⟩, ⟨[255, 255], 5, 4294967295, none⟩]
+    (∀ e ∈ input, e.key.length = 2) ∧ Distinct Entry.key input ∧ (∀ e ∈ input, stored 4 e = e) ∧
+    (∀ e ∈ input, e.isZero = false) ∧
+    (buildParse 2 4 2 input).map (fun c => (c.entries.length, c.toc)) = some (5, [[0, 255], [7, 7], [255, 255]]) := by
+  intro input
+  refine ⟨by decide, by unfold Distinct; decide, by decide, by decide, ?_⟩
+  have h : sortEntries input = input := List.mergeSort_of_pairwise (by decide)
+  unfold buildParse
+  simp only [h]
+  decide
 
 /-! ### root manifest: header detection and FileDataID delta coding -/
 
@@ -223,6 +255,187 @@ ascending or not, with gaps up to 2^32-1 (both directions use wrapping arithmeti
 theorem fdid_delta_roundtrip (ids : List Nat) (h : ∀ x ∈ ids, x < 4294967296) :
     decodeDeltas (encodeDeltas ids) = ids :=
   delta_roundtrip ids h
+
+/-! ### root manifest: whole file (builder → bytes → parser → lookup tables) -/
+
+open Cascette.Model.RootFile Cascette.Proofs.RootFile in
+/-- **root_parse_build (whole-file round trip, V1–V4, named and unnamed, any number of blocks).** For
+EVERY non-empty list of (locale, content, records) blocks handed to the builder that satisfies
+`GoodBlock` (1..1 000 000 records per block — the parser treats a larger count as an empty block —
+32-bit locale and FileDataIDs, content flags within the version's field (32 bits, 40 for V4), 16-byte
+content keys, a name hash on every record iff the block's format carries them: V1 always, V2+ iff
+NO_NAME_HASH is clear), with fewer than 2^32 files in total and, for V2, outside the recorded
+header-ambiguity window: `RootBuilder::build` succeeds and `RootFile::parse` of its bytes returns
+the same version, the header that was written, and exactly the inserted blocks — sorted by
+(locale, content), each block's records sorted by FileDataID, nothing lost, nothing added. Byte
+level: header codec, FDID delta codec, interleaved (V1) and separated (V2–V4) arrays, 5-byte V4
+content flags, block loop with its fuel. -/
+theorem root_parse_build (v : Version) (blocks : List (Nat × Nat × List Rec)) (hne : blocks ≠ [])
+    (hg : ∀ b ∈ blocks, GoodBlock v b.1 b.2.1 b.2.2) (htot : totalOf blocks < 4294967296)
+    (hamb : v = .v2 → ¬ Ambiguous (totalOf blocks) (namedOf blocks)) :
+    ∃ bytes, build v blocks = some bytes ∧
+      parse bytes = some { version := v, header := headerOf v blocks,
+                           blocks := (builtBlocks blocks).map fun b => mkBlock b.1 b.2.1 b.2.2 } :=
+  parse_build v blocks hne hg htot hamb
+
+open Cascette.Model.RootFile Cascette.Proofs.RootFile in
+/-- **root_resolve_eq_inserted.** Under the hypotheses of `root_parse_build`, on the built-then-parsed
+root, for EVERY FileDataID, locale mask and content mask: (1) whatever `resolve_by_id` returns is the
+content key of an inserted record with that FileDataID in a block matching the query; (2) it returns
+nothing iff no inserted record with that FileDataID is in a matching block — in particular nothing
+for an id that was never inserted; (3) if the matching inserted records of that id all carry one
+content key (e.g. the id is unique), exactly that key is returned. (4)–(6): the same for
+`resolve_by_hash` and the records whose name hash is the probe. -/
+theorem root_resolve_eq_inserted (v : Version) (blocks : List (Nat × Nat × List Rec)) (hne : blocks ≠ [])
+    (hg : ∀ b ∈ blocks, GoodBlock v b.1 b.2.1 b.2.2) (htot : totalOf blocks < 4294967296)
+    (hamb : v = .v2 → ¬ Ambiguous (totalOf blocks) (namedOf blocks)) :
+    ∃ bytes p, build v blocks = some bytes ∧ parse bytes = some p ∧ p.version = v ∧
+      (∀ fdid loc cf,
+        (∀ ck, p.resolveById fdid loc cf = some ck →
+          ∃ b ∈ blocks, ∃ r ∈ b.2.2, r.fdid = fdid ∧ entryMatches b.1 b.2.1 loc cf = true ∧ r.ckey = ck) ∧
+        (p.resolveById fdid loc cf = none ↔
+          ∀ b ∈ blocks, ∀ r ∈ b.2.2, r.fdid = fdid → entryMatches b.1 b.2.1 loc cf = false) ∧
+        (∀ b ∈ blocks, ∀ r ∈ b.2.2, r.fdid = fdid → entryMatches b.1 b.2.1 loc cf = true →
+          (∀ b' ∈ blocks, ∀ r' ∈ b'.2.2, r'.fdid = fdid → entryMatches b'.1 b'.2.1 loc cf = true → r'.ckey = r.ckey) →
+          p.resolveById fdid loc cf = some r.ckey)) ∧
+      (∀ hash loc cf,
+        (∀ ck, p.resolveByHash hash loc cf = some ck →
+          ∃ b ∈ blocks, ∃ r ∈ b.2.2, r.nameHash = some hash ∧ entryMatches b.1 b.2.1 loc cf = true ∧ r.ckey = ck) ∧
+        (p.resolveByHash hash loc cf = none ↔
+          ∀ b ∈ blocks, ∀ r ∈ b.2.2, r.nameHash = some hash → entryMatches b.1 b.2.1 loc cf = false) ∧
+        (∀ b ∈ blocks, ∀ r ∈ b.2.2, r.nameHash = some hash → entryMatches b.1 b.2.1 loc cf = true →
+          (∀ b' ∈ blocks, ∀ r' ∈ b'.2.2, r'.nameHash = some hash → entryMatches b'.1 b'.2.1 loc cf = true → r'.ckey = r.ckey) →
+          p.resolveByHash hash loc cf = some r.ckey)) := by
+  obtain ⟨bytes, hb, hp⟩ := parse_build v blocks hne hg htot hamb
+  refine ⟨bytes, _, hb, hp, rfl, ?_, ?_⟩
+  · intro fdid loc cf
+    rw [resolveById_eq]
+    obtain ⟨h1, h2⟩ := resolveGen_built (·.fdid == fdid) blocks loc cf
+    refine ⟨?_, ?_, ?_⟩
+    · intro ck h
+      obtain ⟨b, hb, r, hr, hq, hm, e⟩ := h1 ck h
+      exact ⟨b, hb, r, hr, by simpa using hq, hm, e⟩
+    · rw [h2]
+      constructor
+      · intro h b hb r hr e; exact h b hb r hr (by simpa using e)
+      · intro h b hb r hr e; exact h b hb r hr (by simpa using e)
+    · intro b hb r hr e hm hu
+      exact resolveGen_built_exact _ blocks loc cf b hb r hr (by simpa using e) hm
+        (fun b' hb' r' hr' hq' hm' => hu b' hb' r' hr' (by simpa using hq') hm')
+  · intro hash loc cf
+    rw [resolveByHash_eq]
+    obtain ⟨h1, h2⟩ := resolveGen_built (·.nameHash == some hash) blocks loc cf
+    refine ⟨?_, ?_, ?_⟩
+    · intro ck h
+      obtain ⟨b, hb, r, hr, hq, hm, e⟩ := h1 ck h
+      exact ⟨b, hb, r, hr, by simpa using hq, hm, e⟩
+    · rw [h2]
+      constructor
+      · intro h b hb r hr e; exact h b hb r hr (by simpa using e)
+      · intro h b hb r hr e; exact h b hb r hr (by simpa using e)
+    · intro b hb r hr e hm hu
+      exact resolveGen_built_exact _ blocks loc cf b hb r hr (by simpa using e) hm
+        (fun b' hb' r' hr' hq' hm' => hu b' hb' r' hr' (by simpa using hq') hm')
+
+open Cascette.Model.RootFile Cascette.Proofs.RootFile in
+/-- non-vacuity of the whole-root theorems: a V4 manifest with a named block (two records, inserted in
+descending FileDataID order) and an unnamed block with a 33-bit content flag, and a V2 manifest with
+one named record (1 file: outside the ambiguity window) meet every hypothesis. -/
+example :
+    let blocks : List (Nat × Nat × List Rec) :=
+      [(2, 0, [⟨9, List.replicate 16 1, some 77⟩, ⟨5, List.replicate 16 2, some 78⟩]),
+       (4, 0x110000000, [⟨5, List.replicate 16 3, none⟩])]
+    blocks ≠ [] ∧ (∀ b ∈ blocks, GoodBlock .v4 b.1 b.2.1 b.2.2) ∧ totalOf blocks < 4294967296 ∧
+    GoodBlock .v2 2 0 [⟨9, List.replicate 16 1, some 77⟩] ∧ ¬ Ambiguous 1 1 := by
+  intro blocks
+  refine ⟨by decide, ?_, by decide, ?_, by unfold Ambiguous; omega⟩
+  · intro b hb
+    simp only [blocks, List.mem_cons, List.not_mem_nil, or_false] at hb
+    rcases hb with rfl | rfl
+    · exact ⟨by decide, by decide, by decide, by decide, by decide, by decide, by decide, by decide⟩
+    · exact ⟨by decide, by decide, by decide, by decide, by decide, by decide, by decide, by decide⟩
+  · exact ⟨by decide, by decide, by decide, by decide, by decide, by decide, by decide, by decide⟩
+
+/-! ### resolver chain: FileDataID / path → content key → encoding key -/
+
+open Cascette.Model.RootFile Cascette.Proofs.RootFile Cascette.Model.Resolver Cascette.Proofs.Resolver in
+/-- **resolver_chain (composition of the three maps).** Take ANY root manifest built and parsed as in
+`root_parse_build` and ANY encoding table built and parsed as in `enc_find_encoding_eq_lookup`
+(distinct content keys, 1..255 encoding keys each). Then `ContentResolver`'s chain is the composition
+of the INSERTED maps: (1) for a FileDataID carried by an inserted record `r` (all inserted records of
+that id carrying the same content key — e.g. the id is unique), `resolve_fdid_to_encoding` returns the
+first inserted encoding key of `r.ckey`, or nothing when `r.ckey` is not in the encoding table;
+(2) for a FileDataID that was never inserted it returns nothing; (3)/(4) the same for
+`resolve_path_to_encoding` with the records whose name hash is the path's `calculate_name_hash`
+(the Jenkins hash itself is outside this theorem: its model is tied by C09 and by the run). -/
+theorem resolver_chain (v : Version) (blocks : List (Nat × Nat × List Rec)) (hne : blocks ≠ [])
+    (hg : ∀ b ∈ blocks, GoodBlock v b.1 b.2.1 b.2.2) (htot : totalOf blocks < 4294967296)
+    (hamb : v = .v2 → ¬ Ambiguous (totalOf blocks) (namedOf blocks))
+    (eb : Builder) (f : File) (hb : eb.buildParse = some f)
+    (hd : Distinct CEntry.ckey eb.centries)
+    (hk : ∀ e ∈ eb.centries, 1 ≤ e.ekeys.length ∧ e.ekeys.length ≤ 255) :
+    ∃ bytes p, build v blocks = some bytes ∧ parse bytes = some p ∧
+      (∀ fdid, ∀ b ∈ blocks, ∀ r ∈ b.2.2, r.fdid = fdid →
+        (∀ b' ∈ blocks, ∀ r' ∈ b'.2.2, r'.fdid = fdid → r'.ckey = r.ckey) →
+        fdidToEkey p f fdid = (lookup CEntry.ckey eb.centries r.ckey).bind (·.ekeys.head?)) ∧
+      (∀ fdid, (∀ b ∈ blocks, ∀ r ∈ b.2.2, r.fdid ≠ fdid) → fdidToEkey p f fdid = none) ∧
+      (∀ hash, ∀ b ∈ blocks, ∀ r ∈ b.2.2, r.nameHash = some hash →
+        (∀ b' ∈ blocks, ∀ r' ∈ b'.2.2, r'.nameHash = some hash → r'.ckey = r.ckey) →
+        hashToEkey p f hash = (lookup CEntry.ckey eb.centries r.ckey).bind (·.ekeys.head?)) ∧
+      (∀ hash, (∀ b ∈ blocks, ∀ r ∈ b.2.2, r.nameHash ≠ some hash) → hashToEkey p f hash = none) := by
+  obtain ⟨bytes, hbuild, hp⟩ := parse_build v blocks hne hg htot hamb
+  refine ⟨bytes, _, hbuild, hp, ?_, ?_, ?_, ?_⟩
+  · intro fdid b hb0 r hr e hu
+    unfold fdidToEkey resFdid
+    simp only
+    rw [find?_unique_map (·.fdid == fdid) (·.ckey) _ r
+      (List.mem_reverse.2 ((mem_all_recs blocks r).2 ⟨b, hb0, hr⟩)) (by simpa using e)
+      (fun r' hr' hq' => by
+        obtain ⟨b', hb', hr''⟩ := (mem_all_recs blocks r').1 (List.mem_reverse.1 hr')
+        exact hu b' hb' r' hr'' (by simpa using hq'))]
+    simp only [Option.bind_some]
+    exact resCkey_eq eb f hb hd hk r.ckey
+  · intro fdid habs
+    unfold fdidToEkey resFdid
+    simp only
+    rw [find?_absent _ _ (fun r hr => by
+      obtain ⟨b', hb', hr''⟩ := (mem_all_recs blocks r).1 (List.mem_reverse.1 hr)
+      simpa using habs b' hb' r hr'')]
+    rfl
+  · intro hash b hb0 r hr e hu
+    unfold hashToEkey resHash
+    simp only
+    rw [find?_unique_map (·.nameHash == some hash) (·.ckey) _ r
+      ((mem_all_recs blocks r).2 ⟨b, hb0, hr⟩) (by simpa using e)
+      (fun r' hr' hq' => by
+        obtain ⟨b', hb', hr''⟩ := (mem_all_recs blocks r').1 hr'
+        exact hu b' hb' r' hr'' (by simpa using hq'))]
+    simp only [Option.bind_some]
+    exact resCkey_eq eb f hb hd hk r.ckey
+  · intro hash habs
+    unfold hashToEkey resHash
+    simp only
+    rw [find?_absent _ _ (fun r hr => by
+      obtain ⟨b', hb', hr''⟩ := (mem_all_recs blocks r).1 hr
+      simpa using habs b' hb' r hr'')]
+    rfl
+
+def okEnc2 : Builder :=
+  { cpage := 1024, epage := 1024, centries := [witnessC],
+    eentries := [(onesKey, [122], 8), (List.replicate 16 2, [110], 7)] }
+
+/-- non-vacuity of `resolver_chain` (a test, kernel-evaluated): its root hypotheses are those of
+`root_parse_build` (example above); its encoding hypotheses are met by `okEnc2`, which builds and
+parses. -/
+example : okEnc2.buildParse.isSome = true ∧ Distinct CEntry.ckey okEnc2.centries ∧
+    (∀ e ∈ okEnc2.centries, 1 ≤ e.ekeys.length ∧ e.ekeys.length ≤ 255) := by
+  refine ⟨?_, by unfold Distinct; decide, by decide⟩
+  have h1 : sortBy CEntry.ckey okEnc2.centries = okEnc2.centries := List.mergeSort_of_pairwise (by decide)
+  have h2 : sortBy (fun (x : Key × ESpec × Nat) => x.1) okEnc2.eentries = okEnc2.eentries :=
+    List.mergeSort_of_pairwise (by decide)
+  unfold Builder.buildParse
+  simp only [h1, h2]
+  decide
 
 /-! ### TVFS path table -/
 
